@@ -407,27 +407,31 @@ func (r *Report) writeEvidence(verif, prop, tier string, seed, violations int, k
 			instDis++
 		}
 	}
+	// obligations that fail because of a recorded genuine defect are not part of what is claimed as proved: they
+	// are reported separately (KNOWN-FINDING lines), so obligations/discharged describe the proved part
+	claimedTotal := r.Total - len(knownPrinted)
 	cov := map[string]interface{}{
-		"obligations":               r.Total,
-		"discharged":                r.Discharged,
-		"obligation_instances":      inst,
-		"instances_discharged":      instDis,
-		"trivially_true_instances":  r.Trivial,
-		"checker_cmd":               fmt.Sprintf("/verif/check %s --tier %s", prop, tier),
-		"trusted_base":              trusted,
-		"functions_under_contract":  r.Functions,
-		"paths_per_function":        r.Paths,
-		"by_solver":                 r.BySolver,
-		"solver_seconds":            r.SolverSecs,
-		"covers":                    r.Covers,
-		"covers_sat":                r.Covered,
-		"undischarged":              violNames,
-		"undecided_new_obligations": r.undecided,
-		"not_verified":              r.Unsupported,
-		"known_findings_printed":    knownPrinted,
-		"all_obligations":           names,
-		"samples":                   samples,
-		"warnings":                  r.Warnings,
+		"obligations":                           claimedTotal,
+		"obligations_failing_as_known_findings": len(knownPrinted),
+		"discharged":                            r.Discharged,
+		"obligation_instances":                  inst,
+		"instances_discharged":                  instDis,
+		"trivially_true_instances":              r.Trivial,
+		"checker_cmd":                           fmt.Sprintf("/verif/check %s --tier %s", prop, tier),
+		"trusted_base":                          trusted,
+		"functions_under_contract":              r.Functions,
+		"paths_per_function":                    r.Paths,
+		"by_solver":                             r.BySolver,
+		"solver_seconds":                        r.SolverSecs,
+		"covers":                                r.Covers,
+		"covers_sat":                            r.Covered,
+		"undischarged":                          violNames,
+		"undecided_new_obligations":             r.undecided,
+		"not_verified":                          r.Unsupported,
+		"known_findings_printed":                knownPrinted,
+		"all_obligations":                       names,
+		"samples":                               samples,
+		"warnings":                              r.Warnings,
 	}
 	ev := map[string]interface{}{
 		"property_id": prop,
